@@ -1,11 +1,11 @@
-import GoSnaps.Driver
+import GoSnaps.DriverX
 open GoSnaps
 
 partial def loop (h : IO.FS.Stream) (out : IO.FS.Stream) (s : DState) : IO Unit := do
   let line ← h.getLine
   if line.isEmpty then return ()
   let l := (line.dropEndWhile (fun c => c = '\n' || c = '\r')).toString
-  let (s', o) := step s l
+  let (s', o) := stepX s l
   match o with
   | some str => out.putStrLn str
   | none => pure ()
